@@ -246,19 +246,15 @@ def rule_D2(ctx, rep, rid='D2'):
     T = Terms(b)
     fl = [bi for bi, t in b.calls() if callee_is(t, SINK_TRAIT + '::flush') and not b.blocks[bi]['cleanup']]
     cnt = count_events(b, lambda x: x in fl)
-    ok = len(fl) == 1 and cnt == {1} and self_field_name(norm(T.call_term(fl[0]))[2][0]) == 'sink'
+    ok = len(fl) == 1 and cnt == {1} and self_field_name(norm(T.call_term(fl[0]))[2][0]) == client_field(cad, 'sink')
     rep.ob(rid, 'client-flush-calls-sink-flush', ok, b.where(fl[0]) if fl else b.where(),
            'StatsdClient::flush calls self.sink.flush() exactly once' if ok else 'StatsdClient::flush does not flush its sink exactly once')
     if not ok:
         return
     ct = norm(T.call_term(fl[0]))
-    ok_e, err_e, _ = outcomes(T, fl[0])
-    if ok_e and err_e:
-        re_ = ret_terms(T, err_e)
-        ro = ret_terms(T, ok_e)
-        okk = all(_is_err_of(r, ct) for r in re_) and bool(re_) and all(r[0] == 'adt' and r[2] == 'Ok' for r in ro) and bool(ro)
-    else:
-        okk = False
+    rc = result_cases(T, fl[0])
+    re_, ro = rc['err'], rc['ok']
+    okk = not rc['?'] and all(_is_err_of(r, ct) for r in re_) and bool(re_) and all(r[0] == 'adt' and r[2] == 'Ok' for r in ro) and bool(ro)
     rep.ob(rid, 'client-flush-propagates', okk, b.where(fl[0]), 'Err(e) -> Err(from(e)), Ok -> Ok(())' if okk else 'flush result is not propagated')
 
 
@@ -346,7 +342,7 @@ def rule_E1(ctx, rep, rid='E1'):
         rts = ret_terms(T, [0])
         exp_ok = ('adt', 'core::result::Result', 'Ok', (('0', field_of(('payload', ('param', 2), 'Ok'), '0', 0)),))
         exp_err = ('adt', 'core::result::Result', 'Err', (('0', field_of(('payload', ('param', 2), 'Err'), '0', 0)),))
-        ok = rts == {exp_ok, exp_err}
+        ok = rts == {exp_ok, exp_err} or rts == {('param', 2)}
         rep.ob(rid, 'update-returns-socket-result', ok, b.where(),
                'update returns Ok(n)/Err(e) of the socket unchanged' if ok else 'update returns %s' % sorted(fmt(x) for x in rts))
     for adt, w, f in adapters(cad):
@@ -359,6 +355,14 @@ def rule_E1(ctx, rep, rid='E1'):
         for bi in sends:
             ok_e, err_e, _ = outcomes(T, bi)
             ct = norm(T.call_term(bi))
+            if not err_e:
+                rc = result_cases(T, bi)
+                if rc['ok'] and rc['err'] and not rc['?']:
+                    g1 = all(r[0] == 'adt' and r[2] == 'Err' for r in rc['err'])
+                    g2 = all(r[0] == 'adt' and r[2] == 'Ok' for r in rc['ok'])
+                    rep.ob(rid, '%s/send-failure-is-error' % name, g1, body.where(bi), 'every refusal is returned as Err')
+                    rep.ob(rid, '%s/send-success-is-ok' % name, g2, body.where(bi), 'Ok only when the send succeeded')
+                    continue
             if not err_e:
                 # result passed on whole (e.g. to update): returned terms must be Err-of-call on the Err side
                 rts = ret_terms(T, [0])
